@@ -79,7 +79,21 @@ func listingCompleteness(c *Ctx, rule string, fn *ssa.Function) int {
 				}
 			}
 		}
-		if reason, ok := listingPrefixOK[fnName(fn)]; ok {
+		reason, exc := listingPrefixOK[fnName(fn)]
+		if !exc {
+			// a helper extracted from such a consumer inherits the exception
+			if hosts := helperHosts(fnName(fn)); len(hosts) > 0 {
+				exc = true
+				for _, h := range hosts {
+					r, ok := listingPrefixOK[h]
+					if !ok {
+						exc = false
+					}
+					reason = r
+				}
+			}
+		}
+		if exc {
 			c.ok(rule, fnName(fn)+": acts on a prefix of the listing [named exception]", c.pos(l), reason)
 			continue
 		}
